@@ -343,7 +343,8 @@ Proof.
   { unfold s, to_summary. cbn [s_scenes s_scene s_nodes]. rewrite Hsc. unfold seqN at 1. rewrite map_length, seq_length, Nat.eqb_refl.
     unfold len. rewrite covers_seqN. cbn [andb N.eqb]. apply forallb_forall. intros r Hr. apply seqN_In in Hr.
     unfold valid_idx, len. lia. }
-  rewrite C1, C2, C3, C4, Hdis, C6, C7, C8, C9, C10, C11, C12, C13, T1, T2, T3, T4. reflexivity.
+  assert (C0 : String.eqb (s_version s) "2.0" = true) by reflexivity.
+  rewrite C0, C1, C2, C3, C4, Hdis, C6, C7, C8, C9, C10, C11, C12, C13, T1, T2, T3, T4. reflexivity.
 Qed.
 
 (* ------------------------------------------------------------------ material-content is refuted for the faithful model *)
